@@ -43,6 +43,39 @@ func solveAll(results []*FuncResult, quickMs, fullMs int) {
 		}
 	}
 	wg.Wait()
+	// Second chance for obligations left undecided: solver timing depends on machine load, so an
+	// `unknown` is re-tried alone (lower parallelism, three times the budget) before it counts as failed.
+	var retry []*Obl
+	gens := map[*Obl]*Gen{}
+	for _, r := range results {
+		if r.gen == nil {
+			continue
+		}
+		for _, o := range r.Obls {
+			if o.V.Result != "unsat" && o.V.Result != "sat" {
+				retry = append(retry, o)
+				gens[o] = r.gen
+			}
+		}
+	}
+	if len(retry) == 0 || len(retry) > 40 {
+		return
+	}
+	sem2 := make(chan struct{}, 4)
+	var wg2 sync.WaitGroup
+	for _, o := range retry {
+		wg2.Add(1)
+		go func(o *Obl) {
+			defer wg2.Done()
+			sem2 <- struct{}{}
+			defer func() { <-sem2 }()
+			v := Solve(buildScript(gens[o], o), quickMs*3, fullMs*3)
+			if v.Result == "unsat" || v.Result == "sat" {
+				o.V = v
+			}
+		}(o)
+	}
+	wg2.Wait()
 }
 
 func main() {
